@@ -15,6 +15,8 @@ for cfg, cdefs in (("64", []), ("32", ["USE_FORCE_WIDEMUL_INT64"])):
 QUERIES.append(Query("ecmult_gen_real", S, "harness_ecmult_gen", defs=["GEN", "CT_REAL_GEN"], unwind=70, timeout=2400, instrument=BR, mem_gb=16, allow=["secp256k1_ecmult_gen"],
                      desc="secp256k1_ecmult_gen, REAL digit recoding / comb loop / 32-entry uniform table scan / conditional negation / blinding rescale, field kernels summarised: same decision string for two independent (scalar, scalar_offset, proj_blind) triples",
                      bounds="COMB_BLOCKS=43, COMB_TEETH=6 (the shipped table); all scalars and blinding values"))
+# not registered (harness code kept in h_ct.c): ecmult_const_real (59 min, and the arbitrary-result summaries make PUBLIC table-building computations differ between runs -> spurious differences in gej_add_ge_var),
+# modinv_real (out of memory at 16 GB), api 11 s2c_sign (out of memory at 28 GB)
 APIS = {1: ("ec_seckey_verify / negate / tweak_add / tweak_mul (key secret, tweak public)", []), 2: ("ec_pubkey_create / keypair_create (key secret)", []),
         3: ("ecdsa_sign with the default RFC 6979 nonce (key secret, message public; declassification points honoured)", ["SHA_CAP=22"]),
         4: ("schnorrsig_sign32 (secret key half of the keypair secret; message, aux public)", []), 5: ("ecdh (scalar secret, point public)", []),
@@ -22,19 +24,18 @@ APIS = {1: ("ec_seckey_verify / negate / tweak_add / tweak_mul (key secret, twea
         8: ("musig_partial_sign (secret nonce scalars and secret key secret; bound key, cache, session public)", []),
         9: ("musig_nonce_gen (session randomness and secret key secret)", []),
         10: ("ecdsa_adaptor_decrypt (decryption key secret)", []),
-        11: ("ecdsa_s2c_sign (key secret; message, host data public)", ["SHA_CAP=40"]),
         12: ("ellswift_xdh with the BIP-324 hash (secret key secret, encodings public)", [])}
 for n, (what, d) in APIS.items():
-    QUERIES.append(Query("api_%02d" % n, S, "harness_api", defs=["API=%d" % n, "CT_UF"] + d, unwind=140, unwindset=["secp256k1_ecdsa_sign_inner.0:3", "nonce_function_rfc6979_impl.0:3", "secp256k1_sha256_transform.0:5"], timeout=2400, instrument=BR, mem_gb=(28 if n == 11 else 12), tier=("thorough" if n == 11 else "quick"),
+    QUERIES.append(Query("api_%02d" % n, S, "harness_api", defs=["API=%d" % n, "CT_UF"] + d, unwind=140, unwindset=["secp256k1_ecdsa_sign_inner.0:3", "nonce_function_rfc6979_impl.0:3", "secp256k1_sha256_transform.0:5"], timeout=2400, instrument=BR, mem_gb=14,
                          desc=what + ": equal branch-decision strings for two independent secrets; variable-time routines only on public operands; multiplicative kernels, ecmult_gen and ecmult_const summarised as uninterpreted functions of their operands (equal on public data, free on secret-dependent data)",
                          bounds="first RFC 6979 attempt where applicable"))
 LEVEL_TEXT = ("Branch-trace self-composition on the goto program of the real code (goto-instrument --branch + CBMC): two executions with shared public inputs and independent symbolic secrets must produce identical branch-decision strings; "
               "SECP256K1_CHECKMEM_DEFINE is honoured as declassification; variable-time callees must see run-independent operands.")
 ASSUMPTIONS = ["control-flow half of the property only, at the level of the C semantics (goto program): what gcc -O2 emits and the memory-address half are NOT examined (valgrind ctime_tests does that)",
                "callee summaries: fe mul/sqr/inv, scalar mul/inverse, SHA-256 compression return run-specific arbitrary values and contribute no events -- justified by the leaf queries (fe_mul/sqr, scalar_mul real code: no branch) ; modinv (fe_inv, scalar_inverse) and ecmult_const are summarised WITHOUT a query of their own",
-               "API list: seckey ops, key generation, ECDSA sign, Schnorr sign, ECDH, context_randomize, keypair tweak, musig partial_sign / nonce_gen, adaptor decrypt, ellswift_xdh, (thorough) s2c sign; other secret-key APIs not covered", "first RFC 6979 attempt (compression-call cap)", "both limb configurations for leaves; 64-bit only above"]
+               "API list: seckey ops, key generation, ECDSA sign, Schnorr sign, ECDH, context_randomize, keypair tweak, musig partial_sign / nonce_gen, adaptor decrypt, ellswift_xdh; s2c sign (harness written, out of memory), other secret-key APIs not covered", "first RFC 6979 attempt (compression-call cap)", "both limb configurations for leaves; 64-bit only above"]
 MANIFEST_ENTRY = {
-    "text": "Branch-trace self-composition (goto-instrument --branch on the real goto program, decision strings in 8192-bit registers, CBMC/kissat): leaf primitives (cmov / cond_negate / seckey parsing / normalisation / memczero / real fe_mul, fe_sqr, scalar_mul) in BOTH limb configurations, the real secp256k1_ecmult_gen comb loop and table scan with the blinding values as secrets, and eleven API families (seckey ops, key generation, ECDSA and BIP-340 signing, ECDH, context_randomize, keypair tweak, MuSig partial_sign and nonce_gen, adaptor decrypt, ElligatorSwift xdh; thorough: s2c sign) produce the same sequence of branch decisions for all pairs of secrets, with the library's declassification points honoured and variable-time routines reached only with public operands.",
+    "text": "Branch-trace self-composition (goto-instrument --branch on the real goto program, decision strings in 8192-bit registers, CBMC/kissat): leaf primitives (cmov / cond_negate / seckey parsing / normalisation / memczero / real fe_mul, fe_sqr, scalar_mul) in BOTH limb configurations, the real secp256k1_ecmult_gen comb loop and table scan with the blinding values as secrets, and eleven API families (seckey ops, key generation, ECDSA and BIP-340 signing, ECDH, context_randomize, keypair tweak, MuSig partial_sign and nonce_gen, adaptor decrypt, ElligatorSwift xdh) produce the same sequence of branch decisions for all pairs of secrets, with the library's declassification points honoured and variable-time routines reached only with public operands.",
     "note": "Only the CONTROL-FLOW half, at C-semantics level: memory addresses, compiled code (-O2), assembly are not examined. modinv-based inversion and ecmult_const are summarised without their own query; adaptor encrypt/recover, MuSig adapt/extract, ellswift_create/encode, anti-exfil commit APIs not covered. Trusted: CBMC, goto-instrument --branch, summaries.",
     "technique": "2-safety (self-composition) bounded model checking of branch-decision traces on the instrumented goto program of the real C code (goto-instrument --branch, CBMC 6.11, kissat)",
 }
